@@ -330,7 +330,62 @@ def pathitem_getitem(ip, obj, idx):
     raise Unsupported('path item subscript %r' % (idx,))
 
 
+def _numtext(v):
+    """(number term, marker) of a numeral-like text value, or None"""
+    if isinstance(v, SPathItem):
+        return v.n, v.marker
+    if isinstance(v, models.SDecStr):
+        return v.t, ''
+    if isinstance(v, str):
+        m = ''
+        if v[-1:] in ("'", 'h', 'H', 'p', 'P'):
+            v, m = v[:-1], v[-1:]
+        if v.isdigit():
+            return z3.IntVal(int(v)), m
+    return None
+
+
+def numtext_eq(ctx, a, b):
+    if not isinstance(a, (SPathItem, models.SDecStr)) and not isinstance(b, (SPathItem, models.SDecStr)):
+        return NotImplemented
+    x, y = _numtext(a), _numtext(b)
+    if x is None or y is None:
+        if isinstance(a, str) or isinstance(b, str):
+            return False          # a numeral (plus marker) never equals a text that is not one
+        return NotImplemented
+    if x[1] != y[1]:
+        return False
+    return z3.simplify(x[0] == y[0])
+
+
+def decstr_method(ip, obj, name, args, kwargs):
+    if name == 'isdigit':
+        return wrap_bool(obj.t >= 0)
+    raise Unsupported('str.%s on str(<symbolic int>)' % name)
+
+
+def decstr_getitem(ip, obj, idx):
+    if isinstance(idx, slice) and idx.start == -1 and idx.stop is None:
+        return SStr(items=[z3.simplify(48 + obj.t % 10)])
+    if idx == -1:
+        return SStr(items=[z3.simplify(48 + obj.t % 10)])
+    raise Unsupported('subscript %r on str(<symbolic int>)' % (idx,))
+
+
+def numtext_concat(ip, op, a, b):
+    if op == 'Add' and isinstance(a, models.SDecStr) and isinstance(b, str):
+        if b == '':
+            return a
+        if b in ("'", 'h', 'H', 'p', 'P'):
+            return SPathItem(a.t, b)
+    raise Unsupported('text operation on numerals')
+
+
 def install_path(reg):
+    reg.sym_eq.append(numtext_eq)
+    reg.sym_methods[models.SDecStr] = decstr_method
+    reg.sym_getitem[models.SDecStr] = decstr_getitem
+    reg.sym_binops.append(numtext_concat)
     reg.models[path_item] = m_path_item
     reg.sym_getitem[SPathItem] = pathitem_getitem
     reg.sym_int[SPathItem] = lambda ip, v: (wrap_int(v.n) if not v.marker else pyraise(ValueError, 'invalid literal for int()'))
